@@ -23,7 +23,7 @@ EXTENDS IPAMCore
 
 CONSTANTS
     MaxBindTries, \* bound on the retries of the pods/binding call (timing dependent in the code: 500 ms ticks for 3 s)
-    Guards        \* guards the code has: subset of {"unbindUid", "bindStaleLister", "rebindUnassign"}
+    Guards        \* the guards the code has (AllGuards for the code as it is; attack configurations drop one)
 
 \* configuration of one run; never changes after Init (variables so that one TLC run can validate traces of
 \* different scenarios)
@@ -33,6 +33,10 @@ VARIABLES
     Configs,      \* sequence of pool configurations
     CloudOn       \* BOOLEAN: a cloud provider is configured
 cfgVars == <<Specs, NodeSub, Configs, CloudOn>>
+OpTypes == {"filter", "bind", "unbind", "resync", "apirelease", "poolupsert", "reload", "syncpod"}
+\* ("bindLockFirst" -- Bind taking the pod lock before its lister lookup -- is a switch the code does not have)
+AllGuards == {"unbindUid", "bindStaleLister", "bindUidGuard", "bindPoolSize", "resyncReread", "apiDoubleCheck"}
+             \cup {"podlock:" \o t : t \in OpTypes} \cup {"dplock:" \o t : t \in OpTypes}
 
 VARIABLES
     mem, store, pools, clock,          \* IPAM object (IPAMCore)
@@ -236,22 +240,24 @@ Cont(o, r) ==
    [] o.type = "filter" /\ o.pc = "first" -> {FinishNodes(o, {L.rs})}
    [] o.type = "filter" /\ o.pc = "allocinsubnet" -> IF r.ok THEN {FinishNodes(o, {L.rs})} ELSE {Finish(o, FALSE)}
     (* ======== bind ======== *)
+   [] o.type = "bind" /\ o.pc = "lockpod" -> {Goto(o, IF "bindLockFirst" \in Guards THEN "podlist" ELSE "bykey")}
    [] o.type = "bind" /\ o.pc = "podlist" ->
         IF ~r.found THEN {Finish(o, FALSE)}
         ELSE LET lp == lpods[L.podname] IN
              IF "bindStaleLister" \in Guards /\ lp.uid # o.uid THEN {Finish(o, FALSE)}     \* stale cache: rejected
-             ELSE {[o EXCEPT !.pc = "lockpod", !.loc.lpod = lp, !.loc.key = KeyOf(lp), !.loc.policy = PolicyOf(lp)]}
-   [] o.type = "bind" /\ o.pc = "lockpod" -> {Goto(o, "bykey")}
+             ELSE {[o EXCEPT !.pc = IF "bindLockFirst" \in Guards THEN "bykey" ELSE "lockpod",
+                             !.loc.lpod = lp, !.loc.key = KeyOf(lp), !.loc.policy = PolicyOf(lp)]}
    [] o.type = "bind" /\ o.pc = "bykey" ->
         LET ips0 == r.ips
             ips == IF Len(p.ranges) = 0 /\ Len(ips0) > 0 THEN <<ips0[1]>> ELSE ips0
             owned == {ips[i] : i \in {j \in 1..Len(ips) : ips[j] # "none"}}
             unalloc == IF Len(p.ranges) = 0 THEN <<>> ELSE SelectSeqIdx(p.ranges, ips)
-            stale == \E ip \in owned : mem[ip].uid # "" /\ mem[ip].uid # p.uid
+            stale == "bindUidGuard" \in Guards /\ \E ip \in owned : mem[ip].uid # "" /\ mem[ip].uid # p.uid
             o1 == [o EXCEPT !.loc.ips = ips, !.loc.reserved = owned, !.loc.unalloc = unalloc, !.loc.i = 1] IN
         IF stale THEN {Finish(o, FALSE)}
         ELSE IF Len(unalloc) > 0 \/ Len(ips) = 0
-          THEN IF NodeSubnetOf(o.node) = "none" THEN {Finish(o, FALSE)}
+          THEN IF "bindPoolSize" \in Guards /\ p.pool # "" /\ p.pool \in DOMAIN poolobj THEN {Finish(o, FALSE)}   \* sized pool: filter allocates
+               ELSE IF NodeSubnetOf(o.node) = "none" THEN {Finish(o, FALSE)}
                ELSE {[o1 EXCEPT !.pc = "allocmulti", !.loc.rs = NodeSubnetOf(o.node)]}
           ELSE {BindSkip(o1)}
    [] o.type = "bind" /\ o.pc = "allocmulti" -> IF r.ok THEN {Goto(o, "bykey2")} ELSE {Finish(o, FALSE)}
@@ -293,17 +299,25 @@ Cont(o, r) ==
             ok(ip) == LET m == mem[ip] IN
                       /\ m.key # NoKey /\ m.key.pod # "" /\ m.key.app # ""
                       /\ ~(m.uid = "" /\ m.node = "" /\ ~IsDpKey(m.key) /\ m.policy = 2)
-            items == [i \in 1..Len(SelectSeq(order, ok)) |-> [ip |-> SelectSeq(order, ok)[i], key |-> mem[SelectSeq(order, ok)[i]].key]] IN
+            sel == SelectSeq(order, ok)
+            items == [i \in 1..Len(sel) |-> [ip |-> sel[i], key |-> mem[sel[i]].key, uid |-> mem[sel[i]].uid,
+                                              node |-> mem[sel[i]].node, policy |-> mem[sel[i]].policy]] IN
         {NextItem([o EXCEPT !.loc.items = items, !.loc.i = 1])}
    [] o.type = "resync" /\ o.pc = "lockpod" -> {Goto(o, "byip")}
    [] o.type = "resync" /\ o.pc = "byip" ->
         IF r.key # L.key THEN {NextItem(o)}
-        ELSE {[o EXCEPT !.pc = "podlist", !.loc.fip = [key |-> r.key, uid |-> r.uid, node |-> r.node, policy |-> r.policy],
-                        !.loc.policy = r.policy]}
+        ELSE IF "resyncReread" \in Guards
+          THEN {[o EXCEPT !.pc = "podlist", !.loc.fip = [key |-> r.key, uid |-> r.uid, node |-> r.node, policy |-> r.policy],
+                          !.loc.policy = r.policy]}
+          ELSE LET it == L.items[L.i - 1] IN      \* weakened: keeps the fields of the unlocked snapshot
+               {[o EXCEPT !.pc = "podlist", !.loc.fip = [key |-> it.key, uid |-> it.uid, node |-> it.node, policy |-> it.policy],
+                          !.loc.policy = it.policy]}
    [] o.type \in {"resync", "apirelease"} /\ o.pc = "podlist" ->      \* podRunning: informer cache
         IF r.found /\ (L.fip.uid = "" \/ L.fip.uid = r.uid) /\ r.phase # "Done"
           THEN (IF o.type = "resync" THEN {NextItem(o)} ELSE {Finish(o, FALSE)})
-          ELSE {Goto(o, "podget")}
+          ELSE IF "apiDoubleCheck" \in Guards \/ r.found THEN {Goto(o, "podget")}
+          ELSE (IF CloudOn /\ L.fip.node # "" THEN {Goto(o, "unassign")}       \* weakened: NotFound in the cache is believed
+                ELSE IF o.type = "resync" THEN {RelDecide(o)} ELSE {Goto(o, "release")})
    [] o.type \in {"resync", "apirelease"} /\ o.pc = "podget" ->                        \* podRunning: API server
         LET running == r.err # "" \/ (r.found /\ (L.fip.uid = "" \/ L.fip.uid = r.uid) /\ r.phase # "Done") IN
         IF running THEN (IF o.type = "resync" THEN {NextItem(o)} ELSE {Finish(o, FALSE)})
@@ -384,13 +398,15 @@ IpamRet(o) == [ok |-> o.ret.ok, err |-> ErrClass(o.ret.err), ips |-> o.ret.ips,
 Emp == [x \in {} |-> 0]
 PodEv(type, old, new) == [type |-> type, old |-> old, new |-> new]
 
+\* guard names "podlock:<type>" / "dplock:<type>": that operation type takes the lock
+LockGuard(kind, type) == (kind \o ":" \o type) \in Guards
 CallOutcomes(o, c, f, h) ==
     LET W == Cur  a == c.args
         RO(ret) == {[ret |-> ret, w |-> W]}                      \* read-only call
         IP(outs) == {[ret |-> IpamRet(x), w |-> [W EXCEPT !.mem = x.mem, !.store = x.store, !.clock = clock + 1]] : x \in outs}
     IN
-    CASE c.name = "lockpod" -> IF a.key \in DOMAIN podlock THEN {} ELSE RO(Emp)
-      [] c.name = "lockdp"  -> IF a.key \in DOMAIN dplock THEN {} ELSE RO(Emp)
+    CASE c.name = "lockpod" -> IF a.key \in DOMAIN podlock /\ LockGuard("podlock", o.type) THEN {} ELSE RO(Emp)
+      [] c.name = "lockdp"  -> IF a.key \in DOMAIN dplock /\ LockGuard("dplock", o.type) THEN {} ELSE RO(Emp)
       [] c.name = "podlist" ->
            IF a.pod \in DOMAIN lpods THEN RO([found |-> TRUE, uid |-> lpods[a.pod].uid, phase |-> lpods[a.pod].phase, err |-> ""])
            ELSE RO([found |-> FALSE, uid |-> "", phase |-> "", err |-> ""])
@@ -451,7 +467,7 @@ Complete(w, id, o, o2) ==      \* bookkeeping when the operation ends (o2.pc = "
     LET ok == o2.loc.res.ok
         w1 == [w EXCEPT !.ops = [x \in (DOMAIN w.ops) \ {id} |-> w.ops[x]]] IN
     CASE o.type = "filter" ->
-           IF ok THEN [w1 EXCEPT !.filtered = Put(w.filtered, o.loc.podname, NodesOf(o2.loc.subnets)),
+           IF ok THEN [w1 EXCEPT !.filtered = Put(w.filtered, o.loc.podname, [uid |-> o.uid, nodes |-> NodesOf(o2.loc.subnets)]),
                                  !.nscache = [n \in (DOMAIN nscache) \cup {m \in Nodes : NodeSubnetNow(m) # "none"} |-> NodeSubnetOf(n)]]
            ELSE [w1 EXCEPT !.filtered = IF o.loc.podname \in DOMAIN w.filtered THEN Del(w.filtered, o.loc.podname) ELSE w.filtered]
       [] o.type = "bind" ->
@@ -464,8 +480,8 @@ Complete(w, id, o, o2) ==      \* bookkeeping when the operation ends (o2.pc = "
 StepOutcomes(id, f, h) ==
     LET o == ops[id]  c == Call(o) IN
     UNION { { LET w0 == out.w
-                  w1 == IF c.name = "lockpod" THEN [w0 EXCEPT !.podlock = Put(podlock, c.args.key, id)]
-                        ELSE IF c.name = "lockdp" THEN [w0 EXCEPT !.dplock = Put(dplock, c.args.key, id)] ELSE w0
+                  w1 == IF c.name = "lockpod" /\ LockGuard("podlock", o.type) THEN [w0 EXCEPT !.podlock = Put(podlock, c.args.key, id)]
+                        ELSE IF c.name = "lockdp" /\ LockGuard("dplock", o.type) THEN [w0 EXCEPT !.dplock = Put(dplock, c.args.key, id)] ELSE w0
                   rel == o2.pc = "done" \/ (o.type = "resync" /\ o2.pc = "lockpod")
                   w2 == IF rel THEN [w1 EXCEPT !.podlock = LocksWithout(w1.podlock, id), !.dplock = LocksWithout(w1.dplock, id)] ELSE w1
               IN IF o2.pc = "done" THEN Complete(w2, id, o, o2) ELSE [w2 EXCEPT !.ops = [w2.ops EXCEPT ![id] = o2]]
@@ -478,7 +494,8 @@ WithPod(o, p) == [o EXCEPT !.loc.lpod = p, !.loc.key = KeyOf(p), !.loc.policy = 
 
 StartFilterW(name) == AddOp(Cur, WithPod(NewOp("filter", "lockpod", name, "", pods[name].uid), pods[name]))
 StartBindW(name, node) ==
-    AddOp(Cur, [NewOp("bind", "podlist", name, node, pods[name].uid) EXCEPT !.loc.podname = name])
+    AddOp(Cur, [NewOp("bind", IF "bindLockFirst" \in Guards THEN "lockpod" ELSE "podlist", name, node, pods[name].uid)
+                EXCEPT !.loc.podname = name])
 StartUnbindW ==
     LET it == Head(work) IN
     AddOp([Cur EXCEPT !.work = Tail(work)],
